@@ -17,6 +17,9 @@ class NativeBytecode:
         shutil.copy(os.path.join(VERIF, "native", "bytecode_harness_ext.rs"), os.path.join(src, "verif_native_ext.rs"))
         with open(os.path.join(src, "lib.rs"), "a") as f:
             f.write("\n#[cfg(test)]\nmod verif_native;\n")
+        # read-only accessor for the harness (scratch copy only): the instruction list of a loaded function
+        with open(os.path.join(src, "function.rs"), "a") as f:
+            f.write("\n#[cfg(test)]\nimpl Function {\n    pub(crate) fn verif_instructions(&self) -> &[Instruction] {\n        &self.instructions\n    }\n}\n")
         self.installed = True
 
     def eval_raw(self, vectors, release):
